@@ -91,15 +91,27 @@ def restrict_exponent_one(p):
 
 
 # ----------------------------------------------------------------------------- extraction
+def param_index(f, ty, k):
+    """index of the k-th parameter of exactly the type `ty` (e.g. the first by-value double): independent of parameters of other types being added or removed"""
+    idxs = [i for i, p_ in enumerate(f.params) if (p_.get('t') or '').replace('const ', '') == ty]
+    if k >= len(idxs):
+        raise AnalysisBroken('%s: parameter #%d of type %s vanished' % (f.short, k, ty))
+    return idxs[k]
+
+
 class Reducer:
     def __init__(self, F, f, param_roles):
         self.F = F
         self.f = f
         self.param_roles = {}
+        self.role_index = {}
         for idx, sym in param_roles.items():
+            if isinstance(idx, tuple):
+                idx = param_index(f, idx[0], idx[1])
             if idx >= len(f.params):
                 raise AnalysisBroken('%s: parameter %d vanished' % (f.short, idx))
             self.param_roles[f.params[idx]['d']] = sym
+            self.role_index[sym] = idx
         self.loop = None
         self.outs = {}
         self._find_loop()
@@ -257,7 +269,7 @@ class Reducer:
                             side = ('then' if branch == 'std' else 'else') if not neg else ('else' if branch == 'std' else 'then')
                 # a recursive call inside the condition (`if (!update(child, 1, local, path)) return false;`) defines the local it is given
                 for x in walk(cnd):
-                    if x.get('k') == 'Call' and f.key in self.F.callee_keys(x):
+                    if self.is_rec(x):
                         bind_rec(x)
                 if side is not None:
                     run(role(st, side))
@@ -280,7 +292,7 @@ class Reducer:
                 self._env = env
                 env[c[0]['d']] = self.ev(c[1])
             elif k == 'Call':
-                if f.key in self.F.callee_keys(st):
+                if self.is_rec(st):
                     bind_rec(st)
                 # other calls (unitAttributes fills its out-parameters: roles already known) have no effect on the sum
             elif k in ('Return', 'Continue', 'Break', 'Null', 'ExprWithCleanups'):
@@ -301,8 +313,44 @@ class Reducer:
         self._env = None
         return total[0] if ok[0] else None
 
+    def _wrapper(self, call):
+        """(helper, inner call) when `call` goes to a same-file helper that does nothing but look the child up and hand on to the reducer:
+        exactly one call of the reducer in it, returned as the helper's result (or the helper is void)."""
+        for ck in self.F.callee_keys(call):
+            g = self.F.funcs.get(ck)
+            if g is None or g is self.f or g.file != self.f.file:
+                continue
+            inner = [n for n in g.walk() if n.get('k') == 'Call' and self.f.key in self.F.callee_keys(n)]
+            if len(inner) != 1 or any(n.get('k') in ('For', 'While', 'Do', 'RangeFor') for n in g.walk()):
+                continue
+            par = g.parent(inner[0])
+            while par is not None and par.get('k') in ('Paren', 'Cast', 'Temp', 'Bind'):
+                par = g.parent(par)
+            if par is not None and par.get('k') in ('Return', 'Compound', 'ExprStmt'):
+                return g, inner[0]
+        return None
+
+    def is_rec(self, call):
+        return call.get('k') == 'Call' and (self.f.key in self.F.callee_keys(call) or self._wrapper(call) is not None)
+
+    def rec_arg(self, call, idx):
+        """the expression that reaches parameter idx of the reducer through this (possibly wrapped) recursive call"""
+        from engines import nth_arg
+        if self.f.key in self.F.callee_keys(call):
+            return nth_arg(call, idx)
+        w = self._wrapper(call)
+        if w is None:
+            return None
+        g, inner = w
+        a = nth_arg(inner, idx)
+        if a is not None and a.get('k') == 'Ref' and a.get('dk') == 'parm':
+            for j, p_ in enumerate(g.params):
+                if p_.get('d') == a.get('d'):
+                    return nth_arg(call, j)
+        return a
+
     def recursive_calls(self):
-        return [n for n in self.f.walk() if n.get('k') == 'Call' and self.f.key in self.F.callee_keys(n)]
+        return [n for n in self.f.walk() if self.is_rec(n)]
 
 
 def chain_topdown(leaf, recE, recL, depth=3):
